@@ -25,7 +25,7 @@ func init() {
 			"(healthy got everything in order; what the stalled one got is the published sequence minus runs that begin at a key-frame packet and end just before one). " +
 			"distinct = decision-sequence hash; non-trivial = at least one pre-emption or stall",
 		Assumptions:    []string{"the limit (1000) and 'one GOP' are taken from the property statement, not from the code", "video packets are single NAL units (key-frame start == key-frame packet)"},
-		RequiredProbes: []string{"c04.discard-started", "c04.discard-ended", "c04.backlog-over-limit", "c04.flv-consumer-panics", "c04.parameter-sets-mid-gop"},
+		RequiredProbes: []string{"c04.discard-started", "c04.discard-ended", "c04.backlog-over-limit", "c04.flv-consumer-panics", "c04.parameter-sets-mid-gop", "c04.joiner-with-replay-stalls"},
 	})
 }
 
@@ -135,6 +135,8 @@ func buildC04Media(tier string) sim.Scenario {
 	var isKey []bool
 	var healthy, stall, panicker, joiner *c04Cons
 	var joinerCID media.CID
+	var joinerStalls bool // the late joiner stops reading right after its join replay: its backlog bound includes the replay
+	var replayN int       // packets its join replay put into its queue
 	var joinedAt int
 	var stallCID, panicCID, healthyCID media.CID
 	var G, N int
@@ -214,6 +216,10 @@ func buildC04Media(tier string) sim.Scenario {
 		if tp.Bool() {
 			joinAt = 200 + tp.Choose(N-400)
 			joiner = &c04Cons{w: w, name: "joiner", yieldIn: tp.Bool()}
+			if joinerStalls = tp.OneIn(3); joinerStalls {
+				joiner.phases = []c04Phase{{atConsumed: tp.Choose(3)}} // for ever
+				w.Probe("c04.joiner-with-replay-stalls")
+			}
 		}
 		panickerFLV := false
 		if tp.Bool() {
@@ -247,10 +253,17 @@ func buildC04Media(tier string) sim.Scenario {
 				if i == joinAt {
 					// a late joiner with GOP replay (its replay may itself exceed the limit); it reads fast
 					joinerCID = s.StartConsume(joiner, media.RTPPacket, "joiner")
+					replayN = s.VerifQueueLen(joinerCID) + 1 // what the replay queued (one packet may already be in the consumer's hands)
 					joinedAt = i
 					w.Fault("late-join-with-replay")
 				}
-				if joiner != nil && joinedAt > 0 {
+				if joiner != nil && joinedAt > 0 && joinerStalls {
+					if q := s.VerifQueueLen(joinerCID); G > 0 && Gp > 0 && q > 1000+Gp+replayN {
+						w.Fail("C04/backlog-unbounded", "after publishing packet %d the backlog of the consumer that joined with a replay of %d packets and then stopped reading is %d > 1000 + one GOP (%d packets) + the join replay", i, replayN, q, Gp)
+						return
+					}
+				}
+				if joiner != nil && joinedAt > 0 && !joinerStalls {
 					for k := 0; s.VerifQueueLen(joinerCID) > 300 && k < 40000; k++ {
 						w.Y("pub.paceJoiner")
 					}
@@ -379,7 +392,7 @@ func buildC04Media(tier string) sim.Scenario {
 			}
 		}
 		// late joiner (never stalls): after its replay it gets everything; whatever is missing must be GOP-aligned
-		if joiner != nil && joinedAt > 0 {
+		if joiner != nil && joinedAt > 0 && !joinerStalls {
 			last := -1
 			for _, p := range joiner.got {
 				i := idx[p]
@@ -427,6 +440,9 @@ func buildC04Media(tier string) sim.Scenario {
 		}
 	}
 	cleanup := func(w *sim.World) {
+		if joiner != nil {
+			joiner.release()
+		}
 		stall.release()
 		s.Close()
 		media.VerifReset()
